@@ -12,6 +12,7 @@ From BS Require Import Run.D_C12.
 
 From BS Require Run.D_C05 Run.D_C14.
 From BS Require Import Run.D_C13.
+From BS Require Import Run.D_C07.
 Import ListNotations.
 Open Scope Z_scope.
 
@@ -242,6 +243,7 @@ Definition cmd_history (args : list sexp) : sexp :=
 Definition disp_ext (code : Z) (args : list sexp) : sexp :=
   let nn := code / 1000 in let sub := code mod 1000 in
   match nn with
+  | 7 => disp_c07 sub args
   | 13 => BS.Run.D_C13.disp_c13 sub args
   | 5 => BS.Run.D_C05.disp_c05 sub args
   | 14 => BS.Run.D_C14.disp_c14 sub args
